@@ -323,3 +323,10 @@ for _bc in _it.product(("reflecting", "periodical"), repeat=3):
     CASES.append(get_neighbors_case(_bc))
 CASES.append(Case("grid_to_graph/bounded", grid_to_graph_case, functions=["grid_to_graph"], sym=False,
                   bounded="all shapes w,h<=3, d<=2 (thorough: <=4,<=4,<=3) x 8 boundary combinations, exhaustive"))
+
+
+# the native engine receives the geometry through the Python seam (sizes, the three boundary conditions in x, y, z order,
+# edges of a graph): C04's marshalling cases are part of this check
+from props import C04 as _C04
+CASES.append(_C04.marshal_case("grid", False))
+CASES.append(_C04.marshal_case("graph", False))
